@@ -220,8 +220,10 @@ fn arb_mnode() -> BoxedStrategy<MNode> {
 	let leaf = prop_oneof![8 => arb_scalar(), 1 => arb_scalar().prop_map(|s| MNode::Expr(Box::new(s)))];
 	leaf.prop_recursive(5, 60, 10, |inner| {
 		prop_oneof![
-			1 => (proptest::collection::vec(inner.clone(), 0..=10), any::<bool>()).prop_map(|(a, t)| MNode::Arr(a, t)),
-			1 => (proptest::collection::vec((arb_mkey(), inner), 0..=10), any::<bool>()).prop_map(|(o, t)| MNode::Obj(o, t)),
+			5 => (proptest::collection::vec(inner.clone(), 0..=10), any::<bool>()).prop_map(|(a, t)| MNode::Arr(a, t)),
+			5 => (proptest::collection::vec((arb_mkey(), inner.clone()), 0..=10), any::<bool>()).prop_map(|(o, t)| MNode::Obj(o, t)),
+			1 => (proptest::collection::vec(arb_scalar(), 11..=40), any::<bool>()).prop_map(|(a, t)| MNode::Arr(a, t)),
+			1 => (proptest::collection::vec((arb_mkey(), arb_scalar()), 11..=30), any::<bool>()).prop_map(|(o, t)| MNode::Obj(o, t)),
 		]
 	})
 	.boxed()
